@@ -1,7 +1,7 @@
 // temporary stubs (replaced as modes are implemented)
 #include "modes.h"
 namespace sim {
-#ifndef HAVE_FEAT
+#if 0
 Plan gen_feat(u64) { return Plan(); } void run_feat(const Plan &) {} void feat_override(Store &, const Fault &) {}
 #endif
 #ifndef HAVE_LZ4
